@@ -20,6 +20,11 @@ working tree and writes coq/C15/gen/Facts.v:
   gen_wview_from_buffer / gen_wview_off / gen_wview_size   getWrittenView() = make_shared<View>(buffer, off, size)
   gen_prefix : list (N * Z)        byte width of the length variable streamed first by
       1 vector<<  2 vector>>  3 AbstractArray<<  4 string<<  5 const char*<<  6 string>>
+  gen_overloads : list ovl         EVERY operator<< / operator>> declared in namespace rkcommon::networking, classified by its
+      exact signature (return type incl. the enable_if guard, first parameter, value parameter); OvOther = not one of the eight
+  gen_selection : list (N * N * ovl)   which overload clang selects for  stream << value / stream >> value  as the first
+      operand of a chain: stream 1 WriteStream& 2 BufferWriter 3 FixedBufferWriter 4 WriteSizeCalculator 5 ReadStream& 6 BufferReader;
+      value 1 int 2 std::string 3 const char* 4 vector<int> 5 vector<string> 6 vector<vector<int>> 7 AbstractArray<int>& 8 OwnedArray<int>
   gen_guard : bool                 the generic operator<< carries enable_if<!is_abstract_array<T>>
   gen_overload : list (N * bool)   `stream << x` with x of static type 1 OwnedArray 2 FixedArray 3 ArrayView
       4 FixedArrayView resolves to the AbstractArray overload
@@ -50,6 +55,22 @@ inline void use(WriteStream &w, ReadStream &r, BufferReader &br) {
   utility::OwnedArray<int> oa; const utility::AbstractArray<int> &aa = oa; w << aa;
   int x = 0; w << x; r >> x;
   auto vw = br.getView<uint8_t>(1);
+}
+// overload selection for the FIRST operand of a chain: stream static type x value kind
+//   streams: s_ws WriteStream&, s_bw BufferWriter, s_fw FixedBufferWriter, s_wc WriteSizeCalculator ; r_rs ReadStream&, r_br BufferReader
+//   values : k_pod int, k_str std::string, k_cstr const char*, k_vpod vector<int>, k_vstr vector<string>,
+//            k_vv vector<vector<int>>, k_arr const AbstractArray<int>&, k_own OwnedArray<int>
+inline void selm(WriteStream &s_ws, BufferWriter &s_bw, FixedBufferWriter &s_fw, WriteSizeCalculator &s_wc,
+                 ReadStream &r_rs, BufferReader &r_br,
+                 int &k_pod, std::string &k_str, const char *k_cstr, std::vector<int> &k_vpod,
+                 std::vector<std::string> &k_vstr, std::vector<std::vector<int>> &k_vv,
+                 const utility::AbstractArray<int> &k_arr, utility::OwnedArray<int> &k_own) {
+  s_ws << k_pod; s_ws << k_str; s_ws << k_cstr; s_ws << k_vpod; s_ws << k_vstr; s_ws << k_vv; s_ws << k_arr; s_ws << k_own;
+  s_bw << k_pod; s_bw << k_str; s_bw << k_cstr; s_bw << k_vpod; s_bw << k_vstr; s_bw << k_vv; s_bw << k_arr; s_bw << k_own;
+  s_fw << k_pod; s_fw << k_str; s_fw << k_cstr; s_fw << k_vpod; s_fw << k_vstr; s_fw << k_vv; s_fw << k_arr; s_fw << k_own;
+  s_wc << k_pod; s_wc << k_str; s_wc << k_cstr; s_wc << k_vpod; s_wc << k_vstr; s_wc << k_vv; s_wc << k_arr; s_wc << k_own;
+  r_rs >> k_pod; r_rs >> k_str; r_rs >> k_vpod; r_rs >> k_vstr; r_rs >> k_vv;
+  r_br >> k_pod; r_br >> k_str; r_br >> k_vpod; r_br >> k_vstr; r_br >> k_vv;
 }
 inline void sel(WriteStream &w, utility::OwnedArray<int> &w_own, utility::FixedArray<int> &w_fix,
                 utility::ArrayView<int> &w_view, utility::FixedArrayView<int> &w_fview) {
@@ -275,6 +296,7 @@ def method(docs, cls, name, want_body=True, pred=None):
 
 CLASS_IDS = {}
 INLINE = {}
+IDMAP = {}
 
 
 def index_classes(docs):
@@ -529,6 +551,71 @@ def written_view(docs):
     return src, sx(a[1], env), sx(a[2], env)
 
 
+def norm_sig(t):
+    t = t.replace("rkcommon::networking::", "").replace("rkcommon::", "")
+    return re.sub(r"\s+", " ", t).strip()
+
+
+SIGS = [
+    ("OvGenericOut", "typename std::enable_if<!detail::is_abstract_array<T>::value, WriteStream &>::type (WriteStream &, const T &)"),
+    ("OvGenericIn", "ReadStream &(ReadStream &, T &)"),
+    ("OvVecOut", "WriteStream &(WriteStream &, const std::vector<T> &)"),
+    ("OvVecIn", "ReadStream &(ReadStream &, std::vector<T> &)"),
+    ("OvArrOut", "WriteStream &(WriteStream &, const utility::AbstractArray<T> &)"),
+    ("OvStrOut", "WriteStream &(WriteStream &, const std::string &)"),
+    ("OvCStrOut", "WriteStream &(WriteStream &, const char *)"),
+    ("OvStrIn", "ReadStream &(ReadStream &, std::string &)"),
+]
+
+
+def overload_table(docs):
+    """every operator<< / operator>> declared in namespace rkcommon::networking (free functions and templates; member
+    operators of the classes there too), classified by its exact signature.  -> (sorted list of kinds, id -> kind)"""
+    kinds, idmap = [], {}
+    for d in docs:
+        for n, ps in walk(d):
+            if any(p.get("kind") == "NamespaceDecl" and p.get("name") == "c15inst" for p in ps):
+                continue
+            k = n.get("kind")
+            if n.get("name") not in ("operator<<", "operator>>"):
+                continue
+            if k == "FunctionTemplateDecl":
+                fds = [c for c in inner(n) if c.get("kind") in ("FunctionDecl", "CXXMethodDecl")]
+                if not fds:
+                    continue
+                sig = norm_sig(fds[0].get("type", {}).get("qualType", ""))
+                kind = dict((b, a) for a, b in SIGS).get(sig, "OvOther")
+                if not n.get("previousDecl"):
+                    kinds.append(kind)
+                for f in fds:
+                    idmap[f.get("id")] = kind
+            elif k in ("FunctionDecl", "CXXMethodDecl") and not (ps and ps[-1].get("kind") == "FunctionTemplateDecl"):
+                sig = norm_sig(n.get("type", {}).get("qualType", ""))
+                kind = dict((b, a) for a, b in SIGS).get(sig, "OvOther")
+                if not n.get("previousDecl"):
+                    kinds.append(kind)
+                idmap[n.get("id")] = kind
+    order = [a for a, _ in SIGS] + ["OvOther"]
+    return sorted(kinds, key=order.index), idmap
+
+
+def selection_matrix(docs, idmap):
+    streams = {"s_ws": 1, "s_bw": 2, "s_fw": 3, "s_wc": 4, "r_rs": 5, "r_br": 6}
+    vals = {"k_pod": 1, "k_str": 2, "k_cstr": 3, "k_vpod": 4, "k_vstr": 5, "k_vv": 6, "k_arr": 7, "k_own": 8}
+    out = []
+    for fn, _ in functions(docs, "selm"):
+        for s in inner(body_of(fn)):
+            c = strip(s)
+            if c.get("kind") != "CXXOperatorCallExpr" or len(inner(c)) != 3:
+                continue
+            callee = strip(inner(c)[0])
+            sv = [refid(m)[2] for m, _ in walk(inner(c)[1]) if m.get("kind") == "DeclRefExpr" and refid(m)[2] in streams]
+            vv = [refid(m)[2] for m, _ in walk(inner(c)[2]) if m.get("kind") == "DeclRefExpr" and refid(m)[2] in vals]
+            if sv and vv:
+                out.append((streams[sv[0]], vals[vv[0]], idmap.get(refid(callee)[0], "OvOther")))
+    return out
+
+
 def functions(docs, name):
     for d in docs:
         for n, ps in walk(d):
@@ -560,7 +647,9 @@ def main(argv):
     gen_end = ret_expr(method(docs, "BufferReader", "end"), "b")
     gen_avail = ret_expr(method(docs, "FixedBufferWriter", "available"), "x")
     gen_cap = ret_expr(method(docs, "FixedBufferWriter", "capacity"), "x")
-    # length prefixes
+    # length prefixes (the overloads are identified by their exact signature)
+    IDMAP.clear()
+    IDMAP.update(overload_table(docs)[1])
     sel = {1: None, 2: None, 3: None, 4: None, 5: None, 6: None}
     guard = False
     for name in ("operator<<", "operator>>"):
@@ -569,20 +658,17 @@ def main(argv):
             if "enable_if" in ty and re.search(r"enable_if<\s*!\s*(detail::)?is_abstract_array<T>::value", ty):
                 guard = True
             tpl = ps[-1] if ps and ps[-1].get("kind") == "FunctionTemplateDecl" else None
-            pat = ty
             if tpl is not None:
                 pats = [c for c in inner(tpl) if c.get("kind") == "FunctionDecl"]
-                pat = pats[0].get("type", {}).get("qualType", "") if pats else ""
                 if fn is pats[0] or "<T>" in ty or "T &" in ty:
                     continue                               # the template pattern itself, not an instantiation
-            if name == "operator<<":
-                if tpl is not None and "const std::vector<T> &" in pat: sel[1] = fn
-                elif tpl is not None and "AbstractArray<T> &" in pat: sel[3] = fn
-                elif tpl is None and "const std::string &" in ty: sel[4] = fn
-                elif tpl is None and "const char *" in ty: sel[5] = fn
-            else:
-                if tpl is not None and "std::vector<T> &" in pat: sel[2] = fn
-                elif tpl is None and "std::string &" in ty: sel[6] = fn
+                if "vector<int>" not in ty and "AbstractArray<int>" not in ty:
+                    continue                               # one fixed instantiation per template
+            slot = {"OvVecOut": 1, "OvVecIn": 2, "OvArrOut": 3, "OvStrOut": 4, "OvCStrOut": 5, "OvStrIn": 6}.get(IDMAP.get(fn.get("id")))
+            if slot and (tpl is not None or slot >= 4):
+                if slot in (1, 2) and "std::vector<int> &" not in ty:
+                    continue
+                sel[slot] = fn
     prefix = [(k, prefix_width(sel[k])) for k in sorted(sel)]
     # overload selection for the derived static types
     names = {"w_own": 1, "w_fix": 2, "w_view": 3, "w_fview": 4}
@@ -622,6 +708,10 @@ def main(argv):
     text.append("Definition gen_wview_from_buffer : bool := %s." % ("true" if wsrc else "false"))
     text.append("Definition gen_wview_off : sx := %s." % woff)
     text.append("Definition gen_wview_size : sx := %s." % wsize)
+    kinds, idmap = overload_table(docs)
+    text.append("Definition gen_overloads : list ovl := [%s]." % "; ".join(kinds))
+    text.append("Definition gen_selection : list (N * N * ovl) :=\n  [%s]." %
+                "; ".join("(%d%%N, %d%%N, %s)" % t for t in selection_matrix(docs, idmap)))
     text.append("Definition gen_guard : bool := %s." % ("true" if guard else "false"))
     text.append("Definition gen_overload : list (N * bool) := [%s]." %
                 "; ".join("(%d%%N, %s)" % (k, "true" if overload.get(k) else "false") for k in (1, 2, 3, 4)))
@@ -645,6 +735,7 @@ def unknown_text():
             "Definition gen_fav_init : fav_init := FUnknown.\nDefinition gen_fav_ptr : fav_ptr := PUnknown.\n"
             "Definition gen_fixedarray_shared_storage : bool := false.\nDefinition gen_wview_from_buffer : bool := false.\n"
             "Definition gen_wview_off : sx := XUnknown.\nDefinition gen_wview_size : sx := XUnknown.\n"
+            "Definition gen_overloads : list ovl := [OvOther].\nDefinition gen_selection : list (N * N * ovl) := [].\n"
             "Definition gen_prefix : list (N * Z) := [].\nDefinition gen_guard : bool := false.\nDefinition gen_overload : list (N * bool) := [].\n")
 
 
